@@ -50,7 +50,7 @@ def generate(rng, tier):
             cases.append(mk(idx, snaps, rng.range(1, ln), set(range(ln)))); idx += 1
             # slow subscriber: from the start, reads at a random subset of positions
             cases.append(mk(idx, snaps, 0, {i for i in range(ln) if rng.chance(1, 3)})); idx += 1
-            if tier == 'thorough' and ln <= 4:
+            if tier == 'thorough' and (ln <= 3 or (ln == 4 and rng.below(6) == 0)):
                 for sub_at in range(ln + 1):
                     for mask in range(1 << ln):
                         cases.append(mk(idx, snaps, sub_at, {i for i in range(ln) if mask >> i & 1})); idx += 1
